@@ -165,7 +165,7 @@ void vf_harness(void) { range_parts(); VF_CANARY(); }
 read_body_loop = Unit(
     'HttpMessage_readBody_loop', 'C09',
     cuts=[Cut('rl', HC, r'^\t\twhile \(maxToRead > 0\)',
-              rules=[(r'_socket->read\(buffer, min\(maxToRead, \(int\)sizeof\(buffer\)\)\)', 'SOCK_READ(min(maxToRead, (int)sizeof(buffer)))', 1),
+              rules=[(r'_socket->read\(buffer, ([^;]+)\);', r'SOCK_READ(\1);', 1),   # whatever length expression is passed
                      (r'_status->received = currentsize;', '', 1), (r'_sink->write\(buffer, bytesRead\);', 'g_delivered += bytesRead;', 1),
                      (r'if\(_progress\)\s*_progress\(\*_status\);', '', 1), (r'\breturn;', '{ g_returned = 1; return; }', None)])],
     text=PRE + r'''
@@ -181,6 +181,9 @@ __CPROVER_requires(*size_p >= -2000000000 && *maxToRead_p > 0 && 0 <= *currentsi
 /* every turn either makes progress (delivers >= 1 byte and shrinks what is left) or leaves the function: a peer that stops sending cannot keep the server in this loop */
 __CPROVER_ensures(g_returned || (g_delivered >= 1 && *maxToRead_p == __CPROVER_old(*maxToRead_p) - g_delivered))
 __CPROVER_ensures(g_delivered <= RECV_BLOCK_SIZE && g_delivered <= __CPROVER_old(*maxToRead_p))
+/* message framing: with a Content-Length N still outstanding, the turn takes at most N bytes from the connection - whatever else is already waiting in the socket
+   (the next request of a kept-alive connection) is not part of this body */
+__CPROVER_ensures(__CPROVER_old(*size_p) > 0 ==> g_delivered <= __CPROVER_old(*size_p))
 __CPROVER_assigns(*maxToRead_p, *size_p, *currentsize_p, g_delivered, g_returned, g_reads, g_closed)
 {
   int maxToRead = *maxToRead_p, size = *size_p, currentsize = *currentsize_p, bytesRead = 0; byte buffer[RECV_BLOCK_SIZE];
@@ -301,3 +304,8 @@ void vf_harness(void) { TV q; parseQuery(q); VF_CANARY(); }
     functions=['Url::parseQuery'], trusted=['String::replace / split(sep1, sep2) / Url::decode as abstract stages (their own behaviour is not part of this unit)'],
 )
 UNITS += [read_headers, parse_query]
+
+# replay for the receiving-loop units (shared with C10): the C10 driver's battery on the real HttpRequest reader
+for _u in (read_body_loop, read_body_outer, read_headers):
+    if not _u.replay:
+        _u.replay = replay.battery('C10/driver.cpp', ['battery'])
